@@ -2,11 +2,10 @@
    The documented language is Spec/Grammar.v (written over lists, no cursor arithmetic): wellformed_exp for one
    expansion, template_spec for a whole template.  Proved: for every valid UTF-8 text, the cursor-based parser
    model of one expansion (parse_template) accepts iff wellformed_exp does and then returns exactly its parts;
-   hence for every template without parentheses the whole parser computes template_spec.  Not proved: that the
-   optional-group expansion (expand) enumerates expansions_spec; that half is decided by the Grammar oracle
-   (every string of length <= 5/6 over the syntax alphabet, random templates). *)
+   the optional-group scanner (expand) enumerates exactly expansions_spec, in order; hence for EVERY valid UTF-8
+   string the whole parser computes template_spec: accepted iff in the documented language, decoded as documented. *)
 From WF Require Import Base.Bytes Base.Utf8 Spec.Route Spec.Grammar Model.Parser.
-From WF Require Import Proofs.ParserSafeP Proofs.ParserSpecP Proofs.ParserConstsP.
+From WF Require Import Proofs.ParserSafeP Proofs.ParserSpecP Proofs.ParserConstsP Proofs.ExpandSpecP.
 
 Print wellformed_exp.
 Print exp_parts.
@@ -36,3 +35,24 @@ Theorem C11_parenthesis_free_template_parsed_as_documented :
   forall t : bytes, plain t = true -> utf8_valid t = true -> to_opt (parse t) = template_spec t.
 Proof. exact parse_plain_is_template_spec. Qed.
 Print Assumptions C11_parenthesis_free_template_parsed_as_documented.
+
+(* ---- the whole parser, every valid UTF-8 string ---- *)
+Print template_spec.
+Print expansions_spec.
+Print gparse.
+Print expand_items.
+
+Theorem C11_parser_is_the_documented_language :
+  forall t : bytes, utf8_valid t = true -> to_opt (parse t) = template_spec t.
+Proof. exact parse_is_template_spec. Qed.
+Print Assumptions C11_parser_is_the_documented_language.
+
+Theorem C11_accepted_iff_documented :
+  forall (t : bytes) es, utf8_valid t = true -> (parse t = Ret es <-> template_spec t = Some es).
+Proof. exact parse_accepts_iff. Qed.
+Print Assumptions C11_accepted_iff_documented.
+
+Theorem C11_rejected_iff_not_documented :
+  forall t : bytes, utf8_valid t = true -> ((exists e, parse t = Err e) <-> template_spec t = None).
+Proof. exact parse_rejects_iff. Qed.
+Print Assumptions C11_rejected_iff_not_documented.
